@@ -87,6 +87,9 @@ func runC05(c *Ctx) {
 		// the valid encoding itself: own decoder should take it (C07 judges refusals), no other may
 		c05offer(rec, decs, base.Bytes, "valid", "", false, base.Kind)
 		rec.Event("bases:" + base.Name)
+		// the whole item wrapped in the self-described-CBOR tag (the CBOR library drops it silently)
+		c05offer(rec, decs, append([]byte{0xd9, 0xd9, 0xf7}, base.Bytes...), "prefix-tag-55799", "", true, base.Kind)
+		c05offer(rec, decs, append([]byte{0xd9, 0xd9, 0xf7, 0xd9, 0xd9, 0xf7}, base.Bytes...), "prefix-tag-55799-twice", "", true, base.Kind)
 		t, err := gen.ParseTree(base.Bytes)
 		if err != nil {
 			rec.HarnessError("C05: reference cannot parse its own encoding: " + err.Error())
@@ -141,6 +144,29 @@ func runC05(c *Ctx) {
 	if c.Thorough {
 		runFuzzStage(c, 8000000)
 	}
+	// every registered label x plain / structured / odd-text value, in both buckets and inside a message
+	hz := gen.KeyValueZoo(mon.NewRand(uint64(c.Seed)).Sub(83000))
+	for _, str := range []string{";", ";charset=utf-8", "/", "a/", "/b", " ", "a/b;c=d", "a/b/c", "é/ü"} {
+		hz = append(hz, refNTstr(str))
+	}
+	for _, a := range []int64{-16, -15, -14, 0, 99} {
+		hz = append(hz, refNArr(refNInt(a), refNBstr(make([]byte, 32))), refNArr(refNInt(a)))
+	}
+	var grid [][]byte
+	for l := int64(0); l <= 40; l++ {
+		for _, v := range hz {
+			u := refNMap(refNInt(l), v)
+			grid = append(grid, encodeNode(u), encodeNode(refNBstr(encodeNode(u))))
+			wm := &gen.WSign1{L: gen.WLayer{ProtMap: refNMap(refNInt(1), refNInt(-7), refNInt(l), v), Unprot: refNMap(refNInt(l), v)}, Payload: []byte("p"), Sig: []byte{1}, Tagged: true}
+			grid = append(grid, wm.Bytes())
+			ws := &gen.WSignature{L: gen.WLayer{ProtMap: refNMap(refNInt(l), v), Unprot: refNMap(refNInt(l), v)}, Sig: []byte{1}}
+			grid = append(grid, ws.Bytes())
+		}
+	}
+	mon.Parallel(c.Workers, len(grid), func(w, i int) {
+		rec.Event("mutants")
+		c05offer(rec, decs, grid[i], "label-value-grid", "", true, refcose.KSign1Tagged)
+	})
 	for _, d := range decs {
 		rec.Require(d.name+":accepted", 50)
 	}
@@ -302,6 +328,18 @@ func c05splices(r *mon.Rand, t *gen.Tree) []c05splice {
 		u.Kids = append(u.Kids, refNInt(int64(5000+r.Intn(10))), refNMap(refNInt(1), refNInt(2), k2, refNInt(3)))
 		return true
 	})
+	for _, order := range []int{0, 1} {
+		order := order
+		add("dup-label-nested-with-uint-beyond-int64", func(t *gen.Tree, p, m, u *Node) bool {
+			big := &Node{Major: 0, Arg: ^uint64(0) - uint64(r.Intn(5))}
+			kids := []*Node{refNInt(2), big, refNInt(2), refNInt(1)}
+			if order == 1 {
+				kids = []*Node{refNInt(2), refNInt(1), refNInt(2), big}
+			}
+			u.Kids = append(u.Kids, refNInt(int64(5100+r.Intn(10))), refNMap(kids...))
+			return true
+		})
+	}
 	add("dup-label-nested-in-protected", func(t *gen.Tree, p, m, u *Node) bool {
 		m.Kids = append(m.Kids, refNInt(int64(5000+r.Intn(10))), refNArr(refNMap(refNTstr("a"), refNInt(2), refNTstr("a"), refNInt(3))))
 		return true
